@@ -234,7 +234,9 @@ func H_C01_step_f() { hStep(3, 2, 3, 1, false) }
 // thorough: chains of <= 3 buckets (<= 3 main buckets, <= 3 keys + 1 absent), and
 // <= 5 main buckets with <= 4 keys + 1 absent (chains of <= 2 buckets)
 func H_C01_step_c3() { hStep(3, 3, 3, 1, false) }
-func H_C01_step_w()  { hStep(4, 2, 5, 0, false) }
+
+// not registered: 4-5 main buckets with 4 stored keys exceed 300k paths and 55 minutes per case
+func H_C01_step_w() { hStep(4, 2, 5, 0, false) }
 
 func H_C11_step_q() { hStep(4, 3, 3, 0, true) }
 func H_C11_step_t() { hStep(4, 2, 5, 1, true) }
